@@ -53,7 +53,8 @@ class DocBuilder:
         self.w = w
         self.o = dict(clash=0.2, foreign=0.15, value_kinds=None, repeat_id=0.2, malformed=0.05,
                       paths=("new_record", "factory", "conv"), defaults=0.3, bare=True, fulluri=True,
-                      multi=0.2, anon=0.5, dup_formal=0.06, xml=False, subtypes=0.0, plain_binary=0.0)
+                      multi=0.2, anon=0.5, dup_formal=0.06, xml=False, subtypes=0.0, plain_binary=0.0,
+                      free_bundle=float(__import__("os").environ.get("VERIF_FREE_BUNDLE", "0.15")))
         self.o.update(opts)
         self.ids = {}        # scope -> list of identifiers used (QualifiedName objects as returned)
         self.elems = {}      # scope -> list of (handle, kind)
@@ -81,6 +82,15 @@ class DocBuilder:
                 self.w.set_default(c, r.choice(DEFAULT_URIS))
 
     def new_bundle(self, d, ident=None):
+        if ident is None and self.g.chance(self.o["free_bundle"]):
+            # a bundle built on its own, named in a namespace the document has never heard of, attached with add_bundle()
+            q = self.w.qname("fb", "http://free.example/", "own%d" % len(list(self.w.conts[d].bundles)))
+            h, _e = self.w.new_doc_from([], bundle=True, ident=q)
+            if not h:
+                return None
+            self._init_scope(h)
+            self.setup_scope(h, self.g.rng.randint(0, 2))
+            return h if self.w.add_bundle(d, h, None) is None else None
         if ident is None:
             ident = self.fresh_name(d)
         h, e = self.w.bundle(d, ident)
@@ -108,19 +118,19 @@ class DocBuilder:
         if g.chance(self.o["foreign"]) or not nss:
             p, u = r.choice(SAFE_NS + CLASH_NS)
             if g.chance(0.15) and obj.get_default_namespace() is not None:
-                return QualifiedName(Namespace("", r.choice(DEFAULT_URIS)), loc)
-            return QualifiedName(Namespace(p, u), loc)
+                return self.w.qname("", r.choice(DEFAULT_URIS), loc)
+            return self.w.qname(p, u, loc)
         ns = r.choice(nss)
         k = r.random() if allow_repr else 0.0
         if k < 0.45:
-            return QualifiedName(Namespace(ns.prefix, ns.uri), loc)
+            return self.w.qname(ns.prefix, ns.uri, loc)
         if k < 0.75:
             return "%s:%s" % (ns.prefix, loc)
         if k < 0.87 and self.o["bare"] and obj.get_default_namespace() is not None:
             return loc
         if k < 0.95 and self.o["fulluri"]:
             return ns.uri + loc
-        return QualifiedName(Namespace(ns.prefix, ns.uri), loc)
+        return self.w.qname(ns.prefix, ns.uri, loc)
 
     def ident(self, c):
         ids = self.ids[c]
@@ -170,7 +180,7 @@ class DocBuilder:
                     # full-URI spelling: the split between namespace and local part is the manager's choice
                     nss = self.scope_namespaces(c)
                     ns = g.choice(nss) if nss else Namespace("ex", "http://example.org/")
-                    n = QualifiedName(Namespace(ns.prefix, ns.uri), ncname(g.local()))
+                    n = self.w.qname(ns.prefix, ns.uri, ncname(g.local()))
                 elif ":" in n:
                     p, l = n.split(":", 1)
                     n = p + ":" + ncname(l)
